@@ -45,6 +45,7 @@ INSTITUTIONS = [
     {"P": "https://ofx.delta-cu.coop/cgi-bin/ofx%20gw/a;v=1,2@x+y:z?inst=%2Fd&k=a=b", "org": "DELTA", "fid": "303",
      "S": ["https://ofx.delta-cu.coop/cgi-bin/ofx%20gw/a;v=1,2@x+y:z?inst=%2Fd&k=a=b", "https://ofx.delta-cu.coop/svc%2Fstmt;jsessionid=1?a=%41", "https://d%65lta.example.net:8443/o+f,x"]},
 ]
+REDIRECT_TARGET = "https://elsewhere.example.net/collect"
 OTHER_PROFILE_URLS = ["https://profiles.example.org/prof", "https://www.beta-bank.org/cgi/ofx", "https://ofx.alpha-bank.com/alt%2Fprofile;x=1"]
 
 STATS = None  # per worker process
@@ -95,6 +96,10 @@ class ClientMachine(RuleBasedStateMachine):
             raise urllib.error.URLError("connection refused (scripted)")
         if plan.get("fail_" + which) == "http500":
             return 500, headers, b"server error"
+        if str(plan.get("fail_" + which, "")).startswith("redirect"):
+            # a server that answers a POST with "go elsewhere": the request (and the credentials in it) stay where they were sent
+            code = int(plan["fail_" + which][-3:])
+            return code, headers + [("Location", REDIRECT_TARGET)], b""
         for name, value in plan.get("cookies_" + which, []):
             headers.append(("Set-Cookie", f"{name}={value}; Path=/"))
         rec["served_cookies"] = list(plan.get("cookies_" + which, []))
@@ -119,7 +124,7 @@ class ClientMachine(RuleBasedStateMachine):
 
     @rule(
         i=st.integers(0, 2), api=st.sampled_from(["profile", "statements", "statements", "accounts", "tax1099"]), mode=st.sampled_from(["dryrun", "skip", "normal", "normal"]),
-        s_choice=st.integers(0, 3), up_to_date=st.booleans(), cookie_profile=st.booleans(), cookie_service=st.booleans(), fail=st.sampled_from([None, None, None, None, "transport-profile", "http500-profile", "http500-service", "transport-service"]),
+        s_choice=st.integers(0, 3), up_to_date=st.booleans(), cookie_profile=st.booleans(), cookie_service=st.booleans(), fail=st.sampled_from([None, None, None, None, None, "transport-profile", "http500-profile", "http500-service", "transport-service", "redirect307-service", "redirect308-service", "redirect307-profile", "redirect308-profile"]),
         nreq=st.integers(0, 3),
     )
     def call(self, i, api, mode, s_choice, up_to_date, cookie_profile, cookie_service, fail, nreq):
@@ -193,6 +198,11 @@ class ClientMachine(RuleBasedStateMachine):
         new = self.net.log[before:]
         if len(self.net.socket_attempts) != sock_before:
             self.fail("real-socket-attempt", step, str(self.net.socket_attempts[sock_before:]))
+        for rec in new:
+            if rec["url"] == REDIRECT_TARGET:
+                body = rec.get("data") or b""
+                self.fail("request-followed-a-redirect" + ("/with-credentials" if (cl["uid"].encode() in body or cl["pw"].encode() in body) else ""), step, f"{rec['method']} {rec['url']}")
+                break
         # expected hops
         hops = []
         if api == "profile":
@@ -342,10 +352,80 @@ class ClientMachine(RuleBasedStateMachine):
             STATS.fail(key, list(self.history), f"step {step}: {detail}")
 
 
+def ofxget_runs_case(case):
+    """Two separate ofxget runs (= two client instances, as two invocations of the program are) against a server that sets
+    cookies - also persistent ones (Max-Age / Expires): what the first run was given never shows up in the second."""
+    from pbt.core import ofxgetrun as G
+
+    root = Path(tempfile.mkdtemp(prefix="verif_c14g_"))
+    url = "https://ofx.cookie-bank.com/ofx"
+    issued = {}  # value -> run
+    state = {"run": 0, "n": 0}
+    seen = []
+
+    def responder(rec):
+        state["n"] += 1
+        hdr = rec["headers"].get("cookie", "")
+        for val, run in issued.items():
+            if val in hdr and run != state["run"]:
+                seen.append(f"run {state['run']} sent {hdr!r}; {val} was set in run {run}")
+        headers = [("Content-Type", "application/x-ofx")]
+        for name, attrs in (("sid", case["attrs"]), ("tmp", "")):
+            val = f"{name}-r{state['run']}-n{state['n']}"
+            issued[val] = state["run"]
+            headers.append(("Set-Cookie", f"{name}={val}; Path=/" + ("; " + attrs if attrs else "")))
+        if b"<PROFRQ>" in (rec["data"] or b""):
+            return 200, headers, F.profile_response({"BANKMSGSET": url, "CREDITCARDMSGSET": url, "INVSTMTMSGSET": url}, F.dt_tag(2020 + state["n"]))
+        if b"<ACCTINFORQ>" in (rec["data"] or b""):
+            return 200, headers, F.acctinfo_response([{"kind": "cc", "acctid": "4111", "status": "ACTIVE", "group": 0}])
+        return 200, headers, b"<OFX>fixture reply</OFX>"
+
+    out = []
+    try:
+        with F.FakeNet(responder) as net:
+            for run in (1, 2, 3):
+                state["run"] = run
+                argv = {"stmt": ["stmt", "cbank", "--url", url, "--user", "joe", "--password", "pw-c14", "-c", "4111", "--version", "203"],
+                        "acctinfo": ["acctinfo", "cbank", "--url", url, "--user", "joe", "--password", "pw-c14", "--version", "203"],
+                        "prof": ["prof", "cbank", "--url", url, "--version", "203"]}[case["cmds"][(run - 1) % len(case["cmds"])]]
+                if case.get("write") and run == 1:
+                    argv = argv + ["--write"]
+                r = G.run(root, argv, handler=True)
+                if r.raised is not None:
+                    raise H.HarnessError(f"ofxget run failed: {r.raised!r}")
+            if not net.log:
+                raise H.HarnessError("no traffic")
+        if seen:
+            out.append(("cookie-from-an-earlier-ofxget-run-sent", seen[0]))
+    finally:
+        shutil.rmtree(root, ignore_errors=True)
+    return out
+
+
+def _ofxget_worker(cases):
+    H.setup_path()
+    s = H.Stats()
+    for case in cases:
+        s.case(case, nontrivial=True, labels=["separate ofxget runs against a cookie-setting server"])
+        for k, d in check_case(case):
+            s.fail(k, case, d)
+    return s
+
+
+OFXGET_CASES = [
+    {"kind": "ofxget-runs", "cmds": cmds, "attrs": attrs, "write": w}
+    for cmds in (["stmt"], ["prof", "stmt"], ["acctinfo", "stmt", "prof"])
+    for attrs in ("", "Max-Age=86400", "Expires=Fri, 31 Dec 2100 23:59:59 GMT", "Max-Age=86400; Secure; HttpOnly")
+    for w in (False, True)
+]
+
+
 def check_case(case):
     """Replay an operation history (list of steps as recorded by the machine)."""
     global STATS
     H.setup_path()
+    if isinstance(case, dict) and case.get("kind") == "ofxget-runs":
+        return ofxget_runs_case(case)
     saved = STATS
     STATS = H.Stats()
     try:
@@ -391,3 +471,4 @@ def run(ctx):
     n = ctx.scale(20, 250)
     steps = ctx.scale(8, 14)
     ctx.pmap(_worker, [(n, steps, ctx.sub_seed(i)) for i in range(16)])
+    ctx.pmap(_ofxget_worker, [OFXGET_CASES[i::8] for i in range(8)])
